@@ -280,10 +280,12 @@ class Bisection1D:
 
             i += 1
 
-        coordinates = self.coordinates_domain[i]
+        # evaluate the field the bisection ended on (this used to index the domain with the iteration
+        # counter, i.e. simulate an unrelated field whose result was then ignored)
+        coordinates = self.coordinates_domain[x_r_idx]
 
-        self.calculated_temperatures[i] = self.calculate_excess(
-            coordinates, self.sim_params.max_height, self.fieldDescriptors[i]
+        self.calculated_temperatures[x_r_idx] = self.calculate_excess(
+            coordinates, self.sim_params.max_height, self.fieldDescriptors[x_r_idx]
         )
         # Make sure the field being returned pertains to the index which is the
         # closest to 0 but also negative (the maximum of all 0 or negative
